@@ -30,7 +30,7 @@ ASSUMPTIONS = ['the samples delivered by antenna_source.get_samples are the inpu
 def required(tier):
     b = {'bits:8': 20, 'bits:4': 20, 'npol:1': 20, 'npol:2': 20, 'array': 10, 'single': 20, 'orient:asc': 20, 'orient:desc': 20,
          'digitize:on': 20, 'digitize:off': 10, 'nsub-not-dividing': 10, 'multi-file': 20, 'last-file-partial': 10,
-         'partition-sweep': 20, 'second-recording-same-backend': 10, 'collect-direct': 10}
+         'partition-sweep': 20, 'second-recording-same-backend': 10, 'collect-direct': 10, 'digitiser:wider-than-8-bits': 15}
     return {'buckets': b, 'counters': {'samples_compared': 100000, 'recordings': 300, 'partition_recordings': 200},
             'checks': 500, 'nontrivial': 50}
 
@@ -104,6 +104,8 @@ def run_case(c, R):
     R.bucket('array' if cfg['nants'] > 1 else 'single')
     R.bucket('orient:asc' if cfg['asc'] else 'orient:desc')
     R.bucket('digitize:on' if cfg['digitize'] else 'digitize:off')
+    if cfg['digitize'] and cfg['dig_bits'] > 8:
+        R.bucket('digitiser:wider-than-8-bits')
     returns = []
 
     def post(args, kwargs, result, exc, tok):
